@@ -130,10 +130,11 @@ func copyEntries(es []*raft.LogEntry) []*raft.LogEntry {
 // has decided the fate of the request and of its response.
 func (nt *Net) send(n *Node, r *RPC) error {
 	c := nt.c
+	c.mu.Lock()
 	if n.ghost.Load() || !n.running {
+		c.mu.Unlock()
 		return errNet
 	}
-	c.mu.Lock()
 	nt.seq++
 	r.ID = nt.seq
 	r.From, r.FromInc = n.id, n.inc
@@ -276,12 +277,16 @@ func (nt *Net) handle(r *RPC) {
 	if ok {
 		r.Phase = 1
 	}
+	manual := 0
+	if !nt.auto {
+		manual = 1
+	}
 	c.mu.Unlock()
 	if !ok {
 		r.Err = errNet
 		return
 	}
-	e := Ev{"id": r.ID, "kind": r.Kind, "from": r.From, "to": r.To, "inc": dst.inc}
+	e := Ev{"id": r.ID, "kind": r.Kind, "from": r.From, "to": r.To, "inc": dst.inc, "m": manual}
 	c.rec.Emit("deliver", e)
 	dst.handling.Add(1)
 	var err error
